@@ -2,7 +2,7 @@
 from .. import incr, simlib
 
 MANIFEST = dict(engine="nsim+e2e", category="exploration", technique='runtime monitoring: nsim traces; oracle = zero START events on immediate re-run',
-                text='Plus real-binary runs (ASan+UBSan ninja, vtool commands) of projects with dyndep-provided outputs whose build log is due for recompaction: an unchanged tree stays "no work to do". Same workload as C01; after every successful build the same targets are built again once or twice in fresh invocations. Oracle: no START event and AlreadyUpToDate() (the documented always-dirty phony case is judged separately).',
+                text='(Round 12: real-binary runs with a manifest-regenerating statement that has sibling outputs - configure writes build.ninja and config.h, write-if-changed - whose input changes so that only the sibling changes.) Plus real-binary runs (ASan+UBSan ninja, vtool commands) of projects with dyndep-provided outputs whose build log is due for recompaction: an unchanged tree stays "no work to do". Same workload as C01; after every successful build the same targets are built again once or twice in fresh invocations. Oracle: no START event and AlreadyUpToDate() (the documented always-dirty phony case is judged separately).',
                 note="Trusted: nsim mirrors real_main's rebuild loop; the literal 'ninja: no work to do.' line of the real binary is checked in the e2e runs of C19.", ref="DESIGN.md §5 C02, §10.5 round 6")
 
 
@@ -37,6 +37,8 @@ def run(ctx):
     # dyndep-provided outputs; an unchanged tree stays "no work to do" whatever the logs' length
     from .. import e2e
     e2e.recompaction_scenarios(ctx, "C02", 40 if quick else 800)
+    # the real manifest-regeneration loop (ninja.cc) with a regenerating statement that has sibling outputs
+    e2e.regen_sibling_scenarios(ctx, "C02", 24 if quick else 400)
     ctx.rule = ("seeded random graphs of 3..%d statements x histories of 2..5 change+build rounds (plus immediate re-runs), plus histories in which ninja regenerates and reloads its own manifest; "
                 "distinct_nontrivial = distinct (scenario, build step) pairs judged by this property's monitor that follow at "
                 "least one change" % (9 if quick else 14))
